@@ -1599,6 +1599,20 @@ def _effectful(s):
 def explain_vars(fn):
     """substitute `v = <pure expr>` (v assigned once, in a straight statement list) into the uses that follow in the same list,
     when nothing between the definition and a use can change what the expression reads"""
+    # a, b = (x, y)  ->  a = x; b = y   (x, y do not read a or b)
+    for lst in _stmt_lists(fn):
+        i = 0
+        while i < len(lst):
+            s = lst[i]
+            if isinstance(s, ast.Assign) and len(s.targets) == 1 and isinstance(s.targets[0], ast.Tuple) and isinstance(s.value, ast.Tuple) and len(s.targets[0].elts) == len(s.value.elts) >= 2 \
+                    and all(isinstance(t, ast.Name) for t in s.targets[0].elts) and not any(isinstance(e, ast.Starred) for e in s.value.elts):
+                tn = {t.id for t in s.targets[0].elts}
+                if len(tn) == len(s.targets[0].elts) and not any(isinstance(x, ast.Name) and x.id in tn for e in s.value.elts for x in ast.walk(e)):
+                    new = [ast.fix_missing_locations(ast.copy_location(ast.Assign(targets=[t], value=e), s)) for t, e in zip(s.targets[0].elts, s.value.elts)]
+                    lst[i:i + 1] = new
+                    i += len(new)
+                    continue
+            i += 1
     changed = True
     rounds = 0
     while changed and rounds < 6:
